@@ -43,6 +43,14 @@ pub fn run(ctx: &mut Ctx) {
             }
         });
     }
+    // scale: one hash-identified builder holding > 260 000 nodes (every suffix cube over 18
+    // variables, 20 in the thorough tier): every one of the 2^n full cubes must still denote its own minterm
+    let nbig = if ctx.tier == "thorough" { 6 } else { 2 };
+    if !crate::caps::small() {
+        for case in ctx.cases("semantic_big", nbig, false) {
+            ctx.run_case("semantic_big", case, |ctx, rng| semantic_big(ctx, rng, case));
+        }
+    }
     for case in ctx.cases("semantic_ddnnf", 500, true) {
         ctx.run_case("semantic_ddnnf", case, |ctx, rng| match case % 2 {
             0 => semantic_ddnnf_case::<{ primes::U32_SMALL }>(ctx, rng, false),
@@ -407,6 +415,114 @@ fn semantic_sdd_case<const P: u128>(ctx: &mut Ctx, rng: &mut Rng, check_function
     }
     if ctx.wants_sample() {
         ctx.sample(json!({"regime": "semantic_sdd", "input": info}));
+    }
+}
+
+/// all suffix cubes over n variables in ONE semantic builder (d-DNNF store for even cases, SDD
+/// builder on a right-linear vtree for odd ones), built bottom-up through the public node /
+/// apply interface; then every full cube is evaluated structurally on its own assignment and on
+/// two neighbours.  With 64-bit hashes a merge of two different cubes has probability ~2^-28.
+fn semantic_big(ctx: &mut Ctx, rng: &mut Rng, case: u64) {
+    use rsdd::builder::decision_nnf::DecisionNNFBuilder;
+    let n = if ctx.tier == "thorough" { 20usize } else { 18usize };
+    let perm = rng.perm(n);
+    let mut checked = 0u64;
+    let mut bad: Option<String> = None;
+    if case % 2 == 0 {
+        let order = VarOrder::new(&perm.iter().map(|x| VarLabel::new(*x as u64)).collect::<Vec<_>>());
+        let builder = SemanticDecisionNNFBuilder::<{ primes::U64_LARGEST }>::new(order);
+        let b = &builder;
+        // level by level from the bottom: cubes[k] = all cubes over the variables at levels k..n
+        let mut cur: Vec<BddPtr> = vec![BddPtr::PtrTrue];
+        for lvl in (0..n).rev() {
+            let v = VarLabel::new(perm[lvl] as u64);
+            let mut next = Vec::with_capacity(cur.len() * 2);
+            for c in &cur {
+                // index bit (n-1-lvl) of the position = value of the variable at this level
+                next.push(b.get_or_insert(rsdd::repr::BddNode::new(v, *c, BddPtr::PtrFalse)));
+            }
+            for c in &cur {
+                next.push(b.get_or_insert(rsdd::repr::BddNode::new(v, BddPtr::PtrFalse, *c)));
+            }
+            cur = next;
+            ctx.count("semantic_big_nodes", cur.len() as u64);
+        }
+        // cur[i]: bit (n-1-lvl) of i is the value of the variable at level lvl
+        for (i, p) in cur.iter().enumerate() {
+            let mut asg = 0usize;
+            for lvl in 0..n {
+                if (i >> (n - 1 - lvl)) & 1 == 1 {
+                    asg |= 1 << perm[lvl];
+                }
+            }
+            checked += 1;
+            let flip1 = asg ^ (1 << (i % n));
+            let flip2 = asg ^ (1 << ((i / n) % n));
+            if !crate::walk::bdd_eval_path(*p, asg) || crate::walk::bdd_eval_path(*p, flip1) || crate::walk::bdd_eval_path(*p, flip2) {
+                bad = Some(format!("d-DNNF store: the diagram returned for minterm {:#x} does not denote it", asg));
+                break;
+            }
+        }
+    } else {
+        let lbls: Vec<VarLabel> = perm.iter().map(|x| VarLabel::new(*x as u64)).collect();
+        let builder = SemanticSddBuilder::<{ primes::U64_LARGEST }>::new(rsdd::repr::VTree::right_linear(&lbls));
+        let b = &builder;
+        let mut cur: Vec<SddPtr> = vec![SddPtr::PtrTrue];
+        for lvl in (0..n).rev() {
+            let v = VarLabel::new(perm[lvl] as u64);
+            let mut next = Vec::with_capacity(cur.len() * 2);
+            for c in &cur {
+                next.push(b.and(SddPtr::Var(v, false), *c));
+            }
+            for c in &cur {
+                next.push(b.and(SddPtr::Var(v, true), *c));
+            }
+            cur = next;
+            ctx.count("semantic_big_nodes", cur.len() as u64);
+        }
+        fn eval(p: SddPtr, a: usize) -> bool {
+            match p {
+                SddPtr::PtrTrue => true,
+                SddPtr::PtrFalse => false,
+                SddPtr::Var(l, pol) => ((a >> l.value_usize()) & 1 == 1) == pol,
+                SddPtr::BDD(_) | SddPtr::ComplBDD(_) => {
+                    let neg = matches!(p, SddPtr::ComplBDD(_));
+                    let (lbl, lo, hi) = match p {
+                        SddPtr::BDD(x) | SddPtr::ComplBDD(x) => (x.label(), x.low(), x.high()),
+                        _ => unreachable!(),
+                    };
+                    let r = if (a >> lbl.value_usize()) & 1 == 1 { eval(hi, a) } else { eval(lo, a) };
+                    r != neg
+                }
+                SddPtr::Reg(o) | SddPtr::Compl(o) => {
+                    let neg = matches!(p, SddPtr::Compl(_));
+                    let r = o.iter().any(|e| eval(e.prime(), a) && eval(e.sub(), a));
+                    r != neg
+                }
+            }
+        }
+        for (i, p) in cur.iter().enumerate() {
+            let mut asg = 0usize;
+            for lvl in 0..n {
+                if (i >> (n - 1 - lvl)) & 1 == 1 {
+                    asg |= 1 << perm[lvl];
+                }
+            }
+            checked += 1;
+            let flip1 = asg ^ (1 << (i % n));
+            let flip2 = asg ^ (1 << ((i / n) % n));
+            if !eval(*p, asg) || eval(*p, flip1) || eval(*p, flip2) {
+                bad = Some(format!("SDD builder: the diagram returned for minterm {:#x} does not denote it", asg));
+                break;
+            }
+        }
+    }
+    ctx.count("semantic_big_builders", 1);
+    ctx.count("semantic_big_minterms_checked", checked);
+    ctx.case_eval(Some(crate::rng::mix(0xb16 ^ case)));
+    if let Some(why) = bad {
+        ctx.violation("semantic.big", "a hash-identified builder holding > 260 000 nodes (64-bit field) returned a diagram of a wrong function",
+            json!({"why": why, "order": perm, "store": if case % 2 == 0 { "d-DNNF" } else { "SDD" }}));
     }
 }
 
